@@ -276,34 +276,83 @@ def hmacReadout {σ : Type} (H : HashObj σ) (st : HmacState σ) : Bytes × Hmac
 def hmacObj {σ : Type} (H : HashObj σ) (key : Bytes) : HashObj (HmacState σ) :=
   ⟨hmacNew H key, hmacAppend H, hmacReadout H, H.blockSize, H.digestSize⟩
 
-/-! ## `cbc` (src/aes.cpp, OpenSSL-backed): the object keeps one running IV per direction -/
+/-! ## `cbc` (src/aes.cpp, OpenSSL-backed)
+
+The object owns two IV arrays, `iv_enc_` (slot 0) and `iv_dec_` (slot 1).  `set_iv` copies the caller's
+IV into the slots listed in `Gen.cbcSetIvTargets`; `encrypt` / `decrypt` pass the slot named by
+`Gen.cbcEncIvec` / `Gen.cbcDecIvec` to OpenSSL's `AES_cbc_encrypt`, which uses it as the IV **and
+overwrites it in place** — that is the whole running-IV bookkeeping, so which array is passed where is
+what decides whether several calls chain.  `AES_cbc_encrypt` itself is an external: the parameter
+`CbcExt`, with its documented behaviour as the explicit hypothesis `CbcExt.Standard`. -/
 
 structure CbcState (β : Type) where
   ivEnc : β
   ivDec : β
 
-/-- `set_iv` -/
-def cbcSetIv {β : Type} (iv : β) : CbcState β := ⟨iv, iv⟩
+def CbcState.get {β : Type} (s : CbcState β) (slot : Nat) : β := if slot = 0 then s.ivEnc else s.ivDec
 
-/-- `encrypt(in, out, len)` on whole blocks (`AES_cbc_encrypt(..., iv_enc_, AES_ENCRYPT)` leaves the
-last cipher block in `iv_enc_`) -/
-def cbcEncryptCall {β : Type} (xor : β → β → β) (E : β → β) (s : CbcState β) (ps : List β) : List β × CbcState β :=
-  let cs := Spec.cbcEncrypt xor E s.ivEnc ps
-  (cs, { s with ivEnc := cs.getLastD s.ivEnc })
+def CbcState.put {β : Type} (s : CbcState β) (slot : Nat) (v : β) : CbcState β :=
+  if slot = 0 then { s with ivEnc := v } else { s with ivDec := v }
 
-/-- `decrypt(in, out, len)` on whole blocks (`iv_dec_` becomes the last cipher block read) -/
-def cbcDecryptCall {β : Type} (xor : β → β → β) (D : β → β) (s : CbcState β) (cs : List β) : List β × CbcState β :=
-  (Spec.cbcDecrypt xor D s.ivDec cs, { s with ivDec := cs.getLastD s.ivDec })
+/-- `AES_cbc_encrypt(in, out, len, key, ivec, enc)` on whole blocks: `run enc ivec in = (out, ivec')` -/
+structure CbcExt (β : Type) where
+  run : Bool → β → List β → List β × β
 
-/-- a sequence of `encrypt` calls on one object: the outputs, concatenated -/
-def cbcEncryptCalls {β : Type} (xor : β → β → β) (E : β → β) : CbcState β → List (List β) → List β
-  | _, [] => []
-  | s, ps :: rest => (cbcEncryptCall xor E s ps).1 ++ cbcEncryptCalls xor E (cbcEncryptCall xor E s ps).2 rest
+/-- OpenSSL's contract (SP 800-38A chaining; `ivec` is left holding the last cipher block, unchanged
+for an empty input) -/
+def CbcExt.Standard {β : Type} (X : CbcExt β) (xor : β → β → β) (E D : β → β) : Prop :=
+  ∀ iv bs, X.run true iv bs = (Spec.cbcEncrypt xor E iv bs, (Spec.cbcEncrypt xor E iv bs).getLastD iv) ∧
+           X.run false iv bs = (Spec.cbcDecrypt xor D iv bs, bs.getLastD iv)
 
-/-- a sequence of `decrypt` calls on one object: the outputs, concatenated -/
-def cbcDecryptCalls {β : Type} (xor : β → β → β) (D : β → β) : CbcState β → List (List β) → List β
-  | _, [] => []
-  | s, cs :: rest => (cbcDecryptCall xor D s cs).1 ++ cbcDecryptCalls xor D (cbcDecryptCall xor D s cs).2 rest
+/-- the executable stand-in the driver uses (it satisfies `Standard` by `rfl`) -/
+def osslCbc {β : Type} (xor : β → β → β) (E D : β → β) : CbcExt β :=
+  ⟨fun enc iv bs =>
+    if enc then (Spec.cbcEncrypt xor E iv bs, (Spec.cbcEncrypt xor E iv bs).getLastD iv)
+    else (Spec.cbcDecrypt xor D iv bs, bs.getLastD iv)⟩
+
+/-- `set_iv(ptr, 16)` on an object whose IV arrays hold `s` (all zero after construction / `reset()`) -/
+def cbcSetIv {β : Type} (s : CbcState β) (iv : β) : CbcState β :=
+  Gen.cbcSetIvTargets.foldl (fun st slot => st.put slot iv) s
+
+/-- `encrypt(in, out, len)` on whole blocks -/
+def cbcEncryptCall {β : Type} (X : CbcExt β) (s : CbcState β) (ps : List β) : List β × CbcState β :=
+  let r := X.run Gen.cbcEncDir (s.get Gen.cbcEncIvec) ps
+  (r.1, s.put Gen.cbcEncIvec r.2)
+
+/-- `decrypt(in, out, len)` on whole blocks -/
+def cbcDecryptCall {β : Type} (X : CbcExt β) (s : CbcState β) (cs : List β) : List β × CbcState β :=
+  let r := X.run Gen.cbcDecDir (s.get Gen.cbcDecIvec) cs
+  (r.1, s.put Gen.cbcDecIvec r.2)
+
+/-- one call on the object -/
+inductive CbcOp (β : Type) where
+  | enc (ps : List β)
+  | dec (cs : List β)
+
+def CbcOp.isEnc {β : Type} : CbcOp β → Bool
+  | .enc _ => true
+  | .dec _ => false
+
+def CbcOp.data {β : Type} : CbcOp β → List β
+  | .enc ps => ps
+  | .dec cs => cs
+
+/-- any sequence of `encrypt` / `decrypt` calls on one object: the concatenated outputs of the encrypt
+calls, the concatenated outputs of the decrypt calls, and the final state -/
+def cbcRun {β : Type} (X : CbcExt β) : CbcState β → List (CbcOp β) → List β × List β × CbcState β
+  | s, [] => ([], [], s)
+  | s, .enc ps :: rest =>
+    let r := cbcEncryptCall X s ps
+    let q := cbcRun X r.2 rest
+    (r.1 ++ q.1, q.2.1, q.2.2)
+  | s, .dec cs :: rest =>
+    let r := cbcDecryptCall X s cs
+    let q := cbcRun X r.2 rest
+    (q.1, r.1 ++ q.2.1, q.2.2)
+
+/-- the inputs of the calls of one direction, concatenated -/
+def cbcInputsOf {β : Type} (enc : Bool) (ops : List (CbcOp β)) : List β :=
+  (ops.filter fun o => o.isEnc == enc).flatMap CbcOp.data
 
 /-- what a use of the object ends in: `set_key` (if called), `set_iv` (if called), then `encrypt` -/
 inductive CbcUse where
